@@ -179,6 +179,9 @@ func (p c14Inner) Publish(topic string, msgs ...*message.Message) error {
 }
 func (p c14Inner) Close() error { return nil }
 
+// how long the map is given to empty itself after the last call (windows are <= 100 ms)
+var c14DrainWait = 15 * time.Second
+
 func runC14Conc(args []string) error {
 	fs, out, seed := newFlags("c14conc")
 	nrace := fs.Int("race", 40, "race cases")
@@ -420,7 +423,7 @@ func c14RunConc(rt *c14rt.RT, rng *rand.Rand, mode string, maxG int, cseed int64
 		// empty the map by itself; 15 s is two orders of magnitude more than the window
 		pre.Wait()
 		t0 := time.Now()
-		for lenOf.Len() > 0 && time.Since(t0) < 15*time.Second {
+		for lenOf.Len() > 0 && time.Since(t0) < c14DrainWait {
 			time.Sleep(time.Millisecond)
 		}
 		res.Drained = lenOf.Len() == 0
@@ -431,8 +434,11 @@ func c14RunConc(rt *c14rt.RT, rng *rand.Rand, mode string, maxG int, cseed int64
 	if mode == "expiry" {
 		// liveness of the clean-up: after the last calls the map must empty itself again
 		t0 := time.Now()
-		for lenOf.Len() > 0 && time.Since(t0) < 15*time.Second {
+		for lenOf.Len() > 0 && time.Since(t0) < c14DrainWait {
 			time.Sleep(time.Millisecond)
+		}
+		if lenOf.Len() > 0 {
+			c14DrainWait = time.Second // fail fast: the verdict is in, later cases need not wait as long
 		}
 	}
 	res.LenEnd = lenOf.Len()
